@@ -122,10 +122,18 @@ func Solve(workDir, name, script string, timeoutS int, seed int, allSolvers bool
 	res.Seconds = time.Since(start).Seconds()
 	if len(definitive) == 0 {
 		res.Status = "unknown"
+		allErr := len(res.Answers) > 0
 		for _, a := range res.Answers {
 			if a == "timeout" {
 				res.Status = "timeout"
 			}
+			if a != "error" {
+				allErr = false
+			}
+		}
+		if allErr {
+			// every solver rejected the script: a defect of the generator, not a verdict
+			res.Status = "error"
 		}
 		return res
 	}
